@@ -15,6 +15,11 @@ from aas_core_codegen import run, specific_implementations
 from aas_core_codegen.python import common as python_common, lib as python_lib
 
 MODEL = '''\
+class Color(Enum):
+    Red = "RED"
+    Green = "GREEN"
+
+
 @abstract
 @serialization(with_model_type=True)
 class Abstract_item:
@@ -41,6 +46,13 @@ class Something:
     grid: List[List[Abstract_item]]
     cube: Optional[List[List[List[Leaf]]]]
     tail: Optional[Branch]
+    tags: Optional[List[str]]
+    counts: Optional[List[int]]
+    flags: Optional[List[bool]]
+    ratios: Optional[List[float]]
+    blobs: Optional[List[bytearray]]
+    leaves: Optional[List[Leaf]]
+    colors: Optional[List[Color]]
 
     def __init__(
         self,
@@ -49,12 +61,26 @@ class Something:
         grid: List[List[Abstract_item]],
         cube: Optional[List[List[List[Leaf]]]] = None,
         tail: Optional[Branch] = None,
+        tags: Optional[List[str]] = None,
+        counts: Optional[List[int]] = None,
+        flags: Optional[List[bool]] = None,
+        ratios: Optional[List[float]] = None,
+        blobs: Optional[List[bytearray]] = None,
+        leaves: Optional[List[Leaf]] = None,
+        colors: Optional[List[Color]] = None,
     ) -> None:
         self.head = head
         self.items = items
         self.grid = grid
         self.cube = cube
         self.tail = tail
+        self.tags = tags
+        self.counts = counts
+        self.flags = flags
+        self.ratios = ratios
+        self.blobs = blobs
+        self.leaves = leaves
+        self.colors = colors
 
 
 __version__ = "dummy"
@@ -122,9 +148,31 @@ def bounded(seed: int = 0, **_: Any) -> Dict[str, Any]:
             except BaseException as e:  # noqa
                 failures.append({"property": "C29", "case": "pass-through visitor",
                                  "observed": f"raised {type(e).__name__}: {e}"})
+            # accessors: every Optional[List[...]] property has over_<property>_or_empty -- the items if set, nothing
+            # if not; whatever the items are (primitives, classes, enumeration literals, nested lists)
+            optional_lists = {"cube": [[[leaf["i"]], []]], "tags": ["x", ""], "counts": [0, 7], "flags": [True, False],
+                              "ratios": [0.5], "blobs": [b"\x00\x01"], "leaves": [leaf["a"]], "colors": [T.Color.RED]}
+            bare = T.Something(head=leaf["a"], items=[], grid=[])
+            for prop, value in optional_lists.items():
+                cases += 1
+                full = T.Something(head=leaf["a"], items=[], grid=[], **{prop: value})
+                name = f"over_{prop}_or_empty"
+                if not hasattr(full, name):
+                    failures.append({"property": "C29", "case": name,
+                                     "observed": f"the generated class has no accessor {name} for the optional list {prop!r}"})
+                    continue
+                try:
+                    got_set, got_unset = list(getattr(full, name)()), list(getattr(bare, name)())
+                except BaseException as e:  # noqa
+                    failures.append({"property": "C29", "case": name, "observed": f"raised {type(e).__name__}: {e}"})
+                    continue
+                if got_unset != [] or len(got_set) != len(value) or any(x is not y and x != y for x, y in zip(got_set, value)):
+                    failures.append({"property": "C29", "case": name,
+                                     "observed": f"set: {got_set!r} (expected {value!r}), not set: {got_unset!r} (expected [])"})
         finally:
             sys.path.remove(str(root / "out"))
             for m in [m for m in sys.modules if m == module or m.startswith(module + ".")]:
                 del sys.modules[m]
     return {"cases": cases, "distinct": cases, "failures": failures, "exhaustive": False,
-            "samples": [{"shapes": ["C", "List[C]", "List[List[C]]", "Optional[List[List[List[C]]]]", "Optional[C]"]}]}
+            "samples": [{"shapes": ["C", "List[C]", "List[List[C]]", "Optional[List[List[List[C]]]]", "Optional[C]",
+                                    "Optional[List[str|int|bool|float|bytearray|C|enumeration]]"]}]}
